@@ -8,6 +8,8 @@ CONSTANTS
   MaxFaults = 1
   UnpubOn = TRUE
   TwoVersions = TRUE
+  Expiry = FALSE
+  KeepExpiredUnpublished = FALSE
   MaxSteps = 0
 VIEW MCView
 INVARIANT OnePerSuffixPerTxn
@@ -17,5 +19,7 @@ INVARIANT FailedTxnIsolated
 INVARIANT NoTrace
 INVARIANT DeactivatedRefuses
 INVARIANT IntendedState
+INVARIANT NoOrphanUnpublished
+INVARIANT QuiescentMeansPublished
 PROPERTY HistoryStable
 CHECK_DEADLOCK FALSE
